@@ -173,10 +173,18 @@ def run_property(prop, tier, seed, replay=None, only_case=None):
                       for sub in ("Model", "Bridge", "Math") for r, _, fs in os.walk(os.path.join(lib, sub)) for f in fs
                       if f.endswith(".lean"))
         rechecked = list(lean_modules) + deps
-        rc = subprocess.run(["lake", "env", "leanchecker"] + rechecked, cwd=os.path.join(VERIF, "lean"),
-                            capture_output=True, text=True)
-        if rc.returncode != 0:
-            raise Infra("leanchecker rejected compiled modules:\n" + (rc.stdout + rc.stderr)[-3000:])
+        # one module per leanchecker process (memory grows with the number of modules replayed in one process: ~4 GB for one,
+        # ~40 GB for all of them), three processes at a time
+        from concurrent.futures import ThreadPoolExecutor
+        def _lc(mod_name):
+            r = subprocess.run(["lake", "env", "leanchecker", mod_name], cwd=os.path.join(VERIF, "lean"), capture_output=True, text=True)
+            if r.returncode < 0:      # killed (memory pressure from other jobs): once more, alone
+                r = subprocess.run(["lake", "env", "leanchecker", mod_name], cwd=os.path.join(VERIF, "lean"), capture_output=True, text=True)
+            return mod_name, r.returncode, (r.stdout + r.stderr)[-1500:]
+        with ThreadPoolExecutor(max_workers=3) as ex:
+            bad = [(n, c, o) for n, c, o in ex.map(_lc, rechecked) if c != 0]
+        if bad:
+            raise Infra("leanchecker rejected compiled modules: " + "; ".join(f"{n} (exit {c}) {o}" for n, c, o in bad)[:3000])
     hits = grep_forbidden(lean_sources())
     if hits or bad_axioms:
         raise Infra(f"audit failed: forbidden constructs {hits[:5]} / axioms {bad_axioms[:5]}")
